@@ -89,7 +89,7 @@ def walk_direct(ctx, spec, rng):
     h = Harness(rng)
     prot, tr = net.make_sd(h.loop)
     ndst = spec["ndst"]
-    dsts = [None] + [(f"10.9.0.{i}", 30490) for i in range(1, ndst)]
+    dsts = [None] + [(f"10.9.0.{(i + 1) // 2}", 30490 + i % 2) for i in range(1, ndst)]  # pairs share a host
     target = spec["per_dst"]
     counts = {d: 0 for d in dsts}
     sched = []
